@@ -130,6 +130,7 @@ package test
 //@   loop 0 invariant rangeindex >= -1 && (rangeindex == -1 || rangeindex < len(cases))
 //@   loop 0 invariant [C20.empty] rangeindex == -1 ==> !reported()
 //@   loop 0 step [C20.iter] implementsV(T, encoding.TextMarshaler) ==> (reportedInStep() <==> forMarshal(cases[rangeindex].Constraint) && !(hooksOK(callres("callForCase", 0), callres("callForCase", 1)) && marshalTextOK(local("c").Error != nil, callres("AssertErrorFunc", 0), callres("safeMarshalText", 0, 0), callres("safeMarshalText", 0, 1), local("c").Data)))
+//@   loop 0 exit [C20.all] reportedInStep()
 //@   ensures [C20.empty] len(cases) == 0 ==> !reported()
 //@   ensures [C20.iface] len(cases) > 0 && !implementsV(T, encoding.TextMarshaler) ==> reported()
 //@   loop 0 invariant [C20.iface] implementsV(T, encoding.TextMarshaler) || rangeindex == -1
@@ -138,6 +139,7 @@ package test
 //@   loop 0 invariant rangeindex >= -1 && (rangeindex == -1 || rangeindex < len(cases))
 //@   loop 0 invariant [C20.empty] rangeindex == -1 ==> !reported()
 //@   loop 0 step [C20.iter] implementsV(T, json.Marshaler) ==> (reportedInStep() <==> forMarshal(cases[rangeindex].Constraint) && !(hooksOK(callres("callForCase", 0), callres("callForCase", 1)) && marshalTextOK(local("c").Error != nil, callres("AssertErrorFunc", 0), callres("safeMarshalJSON", 0, 0), callres("safeMarshalJSON", 0, 1), local("c").Data)))
+//@   loop 0 exit [C20.all] reportedInStep()
 //@   ensures [C20.empty] len(cases) == 0 ==> !reported()
 //@   ensures [C20.iface] len(cases) > 0 && !implementsV(T, json.Marshaler) ==> reported()
 //@   loop 0 invariant [C20.iface] implementsV(T, json.Marshaler) || rangeindex == -1
@@ -146,10 +148,13 @@ package test
 //@   loop 0 invariant rangeindex >= -1 && (rangeindex == -1 || rangeindex < len(cases))
 //@   loop 0 invariant [C20.empty] rangeindex == -1 ==> !reported()
 //@   loop 0 step [C20.iter] implementsV(T, encoding.BinaryMarshaler) ==> (reportedInStep() <==> forMarshal(cases[rangeindex].Constraint) && !(hooksOK(callres("callForCase", 0), callres("callForCase", 1)) && marshalBinaryOK(local("c").Error != nil, callres("AssertErrorFunc", 0), callres("safeMarshalBinary", 0, 0), callres("safeMarshalBinary", 0, 1), local("c").Data)))
+//@   loop 0 exit [C20.all] reportedInStep()
 //@   ensures [C20.empty] len(cases) == 0 ==> !reported()
 //@   ensures [C20.iface] len(cases) > 0 && !implementsV(T, encoding.BinaryMarshaler) ==> reported()
 //@   loop 0 invariant [C20.iface] implementsV(T, encoding.BinaryMarshaler) || rangeindex == -1
 
+// [C20.all]: the loop is left before the end of the list only after a report (the missing interface); otherwise every
+// case is visited, so "some iteration reports" is "some case of the list is not satisfied".
 // Unmarshal helpers: "the value is empty / equal" is judged by helperAssertEmpty / helperAssertEqual; the clause says
 // that the iteration reports exactly when the case applies and a hook fails, or the predicate is not met, or the error
 // is unexpected, or that judgement (which must have been asked for) reports.
@@ -159,6 +164,7 @@ package test
 //@   loop 0 invariant [C20.empty] rangeindex == -1 ==> !reported()
 //@   loop 0 invariant rangeindex >= 0 ==> f != nil
 //@   loop 0 step [C20.iter] implementsV(T, encoding.TextUnmarshaler) || implementsP(T, encoding.TextUnmarshaler) ==> (reportedInStep() <==> forUnmarshal(cases[rangeindex].Constraint) && !(hooksOK(callres("callForCase", 0), callres("callForCase", 1)) && unmarshalOK(local("c").Error != nil, callres("AssertErrorFunc", 0), callReported("helperAssertEmpty", 0), callres("safeUnmarshalText", 0), callReported("helperAssertEqual", 0))))
+//@   loop 0 exit [C20.all] reportedInStep()
 //@   ensures [C20.empty] len(cases) == 0 ==> !reported()
 //@   ensures [C20.iface] len(cases) > 0 && !(implementsV(T, encoding.TextUnmarshaler) || implementsP(T, encoding.TextUnmarshaler)) ==> reported()
 //@   loop 0 invariant [C20.iface] implementsV(T, encoding.TextUnmarshaler) || implementsP(T, encoding.TextUnmarshaler) || rangeindex == -1
@@ -168,6 +174,7 @@ package test
 //@   loop 0 invariant [C20.empty] rangeindex == -1 ==> !reported()
 //@   loop 0 invariant rangeindex >= 0 ==> f != nil
 //@   loop 0 step [C20.iter] implementsV(T, encoding.BinaryUnmarshaler) || implementsP(T, encoding.BinaryUnmarshaler) ==> (reportedInStep() <==> forUnmarshal(cases[rangeindex].Constraint) && !(hooksOK(callres("callForCase", 0), callres("callForCase", 1)) && unmarshalOK(local("c").Error != nil, callres("AssertErrorFunc", 0), callReported("helperAssertEmpty", 0), callres("safeUnmarshalBinary", 0), callReported("helperAssertEqual", 0))))
+//@   loop 0 exit [C20.all] reportedInStep()
 //@   ensures [C20.empty] len(cases) == 0 ==> !reported()
 //@   ensures [C20.iface] len(cases) > 0 && !(implementsV(T, encoding.BinaryUnmarshaler) || implementsP(T, encoding.BinaryUnmarshaler)) ==> reported()
 //@   loop 0 invariant [C20.iface] implementsV(T, encoding.BinaryUnmarshaler) || implementsP(T, encoding.BinaryUnmarshaler) || rangeindex == -1
@@ -177,6 +184,7 @@ package test
 //@   loop 0 invariant [C20.empty] rangeindex == -1 ==> !reported()
 //@   loop 0 invariant rangeindex >= 0 ==> f != nil
 //@   loop 0 step [C20.iter] implementsV(T, json.Unmarshaler) || implementsP(T, json.Unmarshaler) ==> (reportedInStep() <==> forUnmarshal(cases[rangeindex].Constraint) && !(hooksOK(callres("callForCase", 0), callres("callForCase", 1)) && unmarshalOK(local("c").Error != nil, callres("AssertErrorFunc", 0), callReported("helperAssertEmpty", 0), callres("safeUnmarshalJSON", 0), callReported("helperAssertEqual", 0))))
+//@   loop 0 exit [C20.all] reportedInStep()
 //@   ensures [C20.empty] len(cases) == 0 ==> !reported()
 //@   ensures [C20.iface] len(cases) > 0 && !(implementsV(T, json.Unmarshaler) || implementsP(T, json.Unmarshaler)) ==> reported()
 //@   loop 0 invariant [C20.iface] implementsV(T, json.Unmarshaler) || implementsP(T, json.Unmarshaler) || rangeindex == -1
